@@ -480,14 +480,12 @@ Section Protocol.
       + destruct m as [s|]; [apply FromReq, T | discriminate].
   Qed.
 
-  Lemma poll_Inv : forall rp sn taken f a f' a' b, Inv a f rp sn -> poll f a taken = Some (f', a', b) -> Inv a' f' rp sn.
+  Lemma poll_Inv : forall rp sn taken f a f' a', Inv a f rp sn -> poll f a taken = Some (f', a') -> Inv a' f' rp sn.
   Proof.
-    intros rp sn taken. induction taken as [|[w m] t IH]; intros f a f' a' b H P; cbn in P.
+    intros rp sn taken. induction taken as [|[w m] t IH]; intros f a f' a' H P; cbn in P.
     - inversion P; subst. exact H.
     - destruct (spawned (phase (f w))); [|discriminate]. destruct (take_msg (f w) m) as [x|] eqn:T; [|discriminate].
-      pose proof (Inv_take a f rp sn w m x H T) as H'. destruct m as [s|].
-      + eapply IH; eauto.
-      + destruct t; [|discriminate]. inversion P; subst. exact H'.
+      pose proof (Inv_take a f rp sn w m x H T) as H'. destruct m as [s|]; eapply IH; eauto.
   Qed.
 
   (* ---- 6. the remaining single-worker transitions ---- *)
@@ -648,6 +646,15 @@ Section Protocol.
     - (* WDropCrash *)
       destruct (phase (ws st w)) eqn:Eph; try discriminate S. des S. inv_some S. cbn.
       apply Inv_upd_same; auto; unfold pend; cbn; rewrite ?Eph; auto; discriminate.
+    - (* OSendFail *)
+      destruct (pc st); try discriminate S. destruct (nth_error p i) as [s|] eqn:En; [|discriminate S].
+      destruct (negb (is_fin s (o st)) && negb (cur_running s (o st)) && can_run s (o st) && mp c); [|discriminate S].
+      assert (Hs : In s p) by (eapply nth_error_In'; eauto).
+      destruct (spawned (phase (ws st (wof c (sid s))))) eqn:Esp; inv_some S; cbn; [apply Inv_ovisit; auto|].
+      destruct (k_unspawned _ _ _ _ H _ Esp) as [P0 I0].
+      apply Inv_upd_same; [apply Inv_ovisit; auto | rewrite P0; reflexivity | rewrite I0; reflexivity | | discriminate].
+      intros X. destruct (phase (ws st (wof c (sid s)))); discriminate.
+    - (* ONext *) des S; inv_some S; exact H.
   Qed.
 
   Lemma exec_SInv : forall tr st st', SInv st -> exec c st tr = Some st' -> SInv st'.
@@ -675,16 +682,16 @@ Section Protocol.
     Variable I : ost -> Prop.
     Hypothesis HI : stable false nofail p I.
 
-    Lemma poll_stable : forall rp sn taken f a f' a' b, Inv a f rp sn -> I a -> poll f a taken = Some (f', a', b) -> I a'.
+    Lemma poll_stable : forall rp sn taken f a f' a', Inv a f rp sn -> I a -> poll f a taken = Some (f', a') -> I a'.
     Proof.
-      intros rp sn taken. induction taken as [|[w m] t IH]; intros f a f' a' b H Ia P; cbn in P.
+      intros rp sn taken. induction taken as [|[w m] t IH]; intros f a f' a' H Ia P; cbn in P.
       - inversion P; subst. exact Ia.
       - destruct (spawned (phase (f w))); [|discriminate]. destruct (take_msg (f w) m) as [x|] eqn:T; [|discriminate].
         pose proof (Inv_take a f rp sn w m x H T) as H'. destruct m as [s|].
         + eapply IH; [exact H' | | exact P].
           destruct (Inv_infl_fresh a f rp sn H w s (take_msg_infl _ _ _ T)) as (G1 & G2 & G3).
           rewrite <- (worker_done_add_done a s G1 G2 G3). apply (proj2 (proj2 (proj2 HI))). exact Ia.
-        + destruct t; [|discriminate]. inversion P; subst. exact Ia.
+        + eapply IH; [exact H' | exact Ia | exact P].
     Qed.
 
     Lemma step_stable : forall st l st', SInv st -> I (o st) -> step c st l = Some st' -> I (o st').
@@ -722,6 +729,8 @@ Section Protocol.
         destruct (Inv_pend_fresh _ _ _ _ H w s Hpe) as (G1 & G2 & G3).
         rewrite <- (worker_done_add_failed _ s G1 G2 G3). apply (proj2 (proj2 (proj2 HI))). exact Ia.
       - des S; inv_some S; exact Ia.
+      - des S; inv_some S; exact Ia.
+      - des S; inv_some S; cbn; apply (proj1 HI); auto; eapply nth_error_In'; eauto.
       - des S; inv_some S; exact Ia.
     Qed.
 
@@ -871,6 +880,8 @@ Section Protocol.
         apply (failed_not_all_finished _ _ _ _ s H'); [left; reflexivity | exact Hall].
       + intros _. discriminate.
     - des S; inv_some S; xsolve HX.
+    - des S; inv_some S; xsolve HX.
+    - des S; inv_some S; unfold XInv; cbn; split; intros X; discriminate X.
     - des S; inv_some S; xsolve HX.
   Qed.
 
